@@ -428,6 +428,94 @@ pub fn run(ctx: &mut Ctx) {
         ctx.eval(b.map(|b| fnv64(&b)));
     });
 
+
+    // any order of the three trailing attributes, every decoder option set that validates: an integrity
+    // attribute that is NOT the RFC MAC under the decoder's key at its own position (made under another
+    // key, or one MAC bit flipped) must never be part of a successfully validated decode, wherever it
+    // stands and whatever else the options say (found missing by seeded change C04-A6: not_ignore())
+    let n = ctx.n(12_000, 1_000_000);
+    ctx.cases("any-order-acceptance", n, |ctx, _case, rng| {
+        let Some(kc) = key_case(rng) else { return };
+        let ref_key = kc.spec.key_bytes();
+        let other_key: Vec<u8> = if kc.wrong.is_empty() { vec![0x55; 16] } else { kc.wrong[rng.usize_below(kc.wrong.len())].1.as_bytes().to_vec() };
+        let mut attrs: Vec<WAttr> = Vec::new();
+        for _ in 0..rng.below(3) {
+            attrs.push(WAttr::Raw(0x8022, gen::stable_string(rng, 1, 12).into_bytes()));
+        }
+        // a permutation of a subset of {MI, SHA256, FP} holding at least one integrity attribute
+        let mut kinds: Vec<u8> = vec![0, 1, 2];
+        for i in (1..kinds.len()).rev() {
+            kinds.swap(i, rng.usize_below(i + 1));
+        }
+        let keep = 1 + rng.usize_below(3);
+        kinds.truncate(keep);
+        if !kinds.iter().any(|k| *k < 2) {
+            kinds.push(rng.below(2) as u8);
+        }
+        // state per integrity type: 0 good, 1 one MAC bit flipped, 2 made under another key
+        let mut state = [0u8; 2];
+        let mut order = String::new();
+        for k in &kinds {
+            match *k {
+                2 => {
+                    attrs.push(WAttr::Fp(None));
+                    order.push('F');
+                }
+                t => {
+                    let st = if rng.chance(1, 3) { 0 } else { 1 + rng.below(2) as u8 };
+                    state[t as usize] = st;
+                    let (key, flip) = match st {
+                        0 => (ref_key.clone(), None),
+                        1 => (ref_key.clone(), Some(1u8 << rng.below(8))),
+                        _ => (other_key.clone(), None),
+                    };
+                    if other_key == ref_key && st == 2 {
+                        state[t as usize] = 0;
+                    }
+                    attrs.push(if t == 0 { WAttr::Mi(key, flip) } else { WAttr::Mi256(key, flip) });
+                    order.push(if t == 0 { 'M' } else { 'S' });
+                }
+            }
+            if rng.chance(1, 6) {
+                attrs.push(WAttr::Raw(0x8022, b"x".to_vec()));
+                order.push('o');
+            }
+        }
+        let bytes = wire::build_raw(gen::method(rng), rng.below(4) as u8, &gen::txid(rng), &attrs, &mut Zero);
+        ctx.count(&format!("any-order.order.{}", order));
+        for opts in [3u8, 7, 11, 15] {
+            match decode(&decoder(Some(opts), Some(&kc.lib)), &bytes) {
+                Err(p) => report_panic(ctx, "decode-any-order", &p, J::obj().set("bytes", J::s(hex_trunc(&bytes, 400)))),
+                Ok(Err(_)) => ctx.count("any-order.decode-refused"),
+                Ok(Ok((m, _))) => {
+                    ctx.count("any-order.decode-ok");
+                    for a in m.attributes() {
+                        let t = match a.attribute_type().as_u16() {
+                            T_MESSAGE_INTEGRITY => 0usize,
+                            T_MESSAGE_INTEGRITY_SHA256 => 1,
+                            _ => continue,
+                        };
+                        if state[t] != 0 {
+                            ctx.violation(
+                                &format!(
+                                    "bad-integrity-in-validated-decode:{}:{}:{}",
+                                    tname(if t == 0 { T_MESSAGE_INTEGRITY } else { T_MESSAGE_INTEGRITY_SHA256 }),
+                                    if state[t] == 1 { "mac-bit-flipped" } else { "other-key" },
+                                    super::opts_name(Some(opts))
+                                ),
+                                format!("tail order {}: validating decode succeeded and returned an integrity attribute that is not the MAC under the decoder's key", order),
+                                J::obj().set("bytes", J::s(hex_trunc(&bytes, 400))).set("key", J::s(kc.desc.clone())).set("order", J::s(order.clone())),
+                            );
+                        } else {
+                            ctx.count("any-order.good-integrity-returned");
+                        }
+                    }
+                }
+            }
+        }
+        ctx.eval(Some(fnv64(&bytes)));
+    });
+
     // RFC vectors: published MACs validate under the published credentials only
     ctx.cases("vectors", 1, |ctx, _c, rng| {
         let st = HMACKey::new_short_term("VOkJxbRl1RmTxUk/WvJxBt").unwrap();
